@@ -24,7 +24,10 @@ use rand::distributions::{Distribution as _, Standard};
 use rand::{Rng, RngCore, SeedableRng};
 use std::sync::Arc;
 
-fn inverse_cdf<K: Bounded + Clone + Num + Debug, T: Float>(s: &impl DiscreteCDF<K, T>, p: T) -> K {
+fn inverse_cdf<K: Bounded + Clone + Num + Debug + PartialOrd, T: Float>(
+    s: &impl DiscreteCDF<K, T>,
+    p: T,
+) -> K {
     if p == T::zero() {
         return s.min();
     };
@@ -35,10 +38,14 @@ fn inverse_cdf<K: Bounded + Clone + Num + Debug, T: Float>(s: &impl DiscreteCDF<
     let mut high = two.clone();
     let mut low = K::min_value();
     while s.cdf(high.clone()) < p {
+        if high > K::max_value() / two.clone() {
+            high = K::max_value();
+            break;
+        }
         high = high.clone() + high.clone();
     }
     while high != low {
-        let mid = (high.clone() + low.clone()) / two.clone();
+        let mid = low.clone() + (high.clone() - low.clone()) / two.clone();
         if s.cdf(mid.clone()) >= p {
             high = mid;
         } else if low == mid {
